@@ -75,7 +75,7 @@ def unify(a, b):
 
 # ------------------------------------------------------------------------------------------------ function table
 class Fn:
-    def __init__(self, name, coq, params, ret=None, cls=None, state=None, ret_union=False, fuel=False, pure=False, mutates=(), abstract=False, returns_state=(), locals_=None, es_mut=()):
+    def __init__(self, name, coq, params, ret=None, cls=None, state=None, ret_union=False, fuel=False, pure=False, mutates=(), abstract=False, returns_state=(), locals_=None, es_mut=(), narrow=()):
         self.name, self.coq, self.params, self.ret, self.cls = name, coq, params, ret, cls
         self.state = state or []          # [(key, coqname, type)] read from self.epistemic_state
         self.ret_union = ret_union        # `return False, x` / `return v, x`  ->  (PFalse, x) / (PVal v, x)
@@ -86,6 +86,7 @@ class Fn:
         self.uses = []                    # abstract methods this function calls
         self.locals_ = dict(locals_ or {})       # declared types of local variables (Optional[int] cannot be inferred)
         self.returns_state = list(returns_state)   # parameters (solver objects) whose final state is returned with the result
+        self.narrow = list(narrow)        # Optional[int] locals read as int under `if x is not None:` (x is not re-bound there)
         self.es_mut = list(es_mut)        # [(key, type)]: entries of self.epistemic_state the function writes; passed in and returned
 
 
@@ -455,6 +456,9 @@ class X:
                 return "(negb (is_nil %s))" % l, "bool", b
         if isinstance(tr, tuple) and tr[0] in ("list", "set") and tr[1] == "int" and tl == "int" and isinstance(op, (ast.In, ast.NotIn)):
             c = "(zmem %s %s)" % (l, r)
+            return (c if isinstance(op, ast.In) else "(negb %s)" % c), "bool", b
+        if isinstance(tr, tuple) and tr[0] == "dict" and tl == "int" and isinstance(op, (ast.In, ast.NotIn)):
+            c = "(zdict_mem %s %s)" % (r, l)
             return (c if isinstance(op, ast.In) else "(negb %s)" % c), "bool", b
         if isinstance(tl, tuple) and isinstance(tr, tuple) and tl[0] == "set" and tr[0] == "set" and unify(tl, tr) == ("set", "cond") \
                 and isinstance(op, (ast.Eq, ast.NotEq)):
@@ -833,6 +837,25 @@ class X:
             if isinstance(t, tuple) and t[0] == "list" and isinstance(t[1], tuple) and t[1][0] in ("set", "list"):
                 return "(sort_by_len %s)" % c, t, b
             fail(e, "sorted(key=len) of %r" % (t,))
+        if name == "sorted" and len(e.args) == 1 and not e.keywords:
+            c, t, b = self.tx(e.args[0], env)
+            if t == ("list", "int"):
+                return "(zsort %s)" % c, t, b
+            fail(e, "sorted of %r" % (t,))
+        if name == "__unopt" and len(e.args) == 1:
+            # inserted by the translator under `if x is not None:` - the value of x there
+            c, t, b = self.tx(e.args[0], env)
+            if t != "optint":
+                fail(e, "narrowing of %r" % (t,))
+            nm = self.ctx.fresh()
+            return nm, "int", b + [(nm, "py_unopt %s" % c, "cbind")]
+        if name in env and isinstance(env[name], tuple) and env[name][0] == "fn":
+            # a callable parameter: an unknown function that may raise
+            cs, ts, b = self.simple_args(e, env, len(env[name][1]))
+            if tuple(ts) != tuple(env[name][1]):
+                fail(e, "call of %s with %r" % (name, ts))
+            nm = self.ctx.fresh("r")
+            return nm, env[name][2], b + [(nm, "(%s %s)" % (v(name), " ".join(cs)), "call")]
         fn = self.ctx.table.get(name)
         if fn is not None and fn.cls is None:
             return self.call_fn(e, fn, env)
@@ -884,6 +907,8 @@ class X:
             if kt != "world":
                 fail(e, "ranking-table key of type %r" % (kt,))
             return "(wdict_getopt %s %s)" % (c, kc), "optint", b + kb
+        if isinstance(t, tuple) and t[0] == "wdict" and f.attr == "items" and not e.args and not e.keywords:
+            return c, ("list", ("tuple", ("world", t[1]))), b
         if isinstance(t, tuple) and t[0] == "dict" and not e.args and not e.keywords:
             if f.attr == "values":
                 return "(dict_values %s)" % c, ("list", t[1]), b
@@ -1224,6 +1249,9 @@ class B:
                         and s.value.func.id == "dict" and not s.value.args:
                     ty = self.ctx.fn.locals_[t.id]
                     c = "([] : %s)" % coq_type(ty)
+                if isinstance(t, ast.Name) and t.id in self.ctx.fn.locals_ and isinstance(s.value, ast.Dict) and not s.value.keys:
+                    ty = self.ctx.fn.locals_[t.id]
+                    c = "([] : %s)" % coq_type(ty)
                 if isinstance(t, ast.Name) and t.id in self.ctx.fn.locals_ and isinstance(s.value, ast.List) and not s.value.elts:
                     ty = self.ctx.fn.locals_[t.id]
                     c = "([] : %s)" % coq_type(ty)
@@ -1266,6 +1294,24 @@ class B:
                     binds_in(b)
                     env[name] = nt
                     let(v(name), code)
+                    continue
+                if (isinstance(e, ast.Call) and isinstance(e.func, ast.Attribute) and e.func.attr == "add" and len(e.args) == 1 and not e.keywords
+                        and isinstance(e.func.value, ast.Subscript) and isinstance(e.func.value.value, ast.Name) and e.func.value.value.id in env
+                        and isinstance(env[e.func.value.value.id], tuple) and env[e.func.value.value.id][0] == "dict"):
+                    dn = e.func.value.value.id
+                    try:
+                        env[dn] = unify(env[dn], ("dict", ("set", "world")))
+                    except Unsupported:
+                        fail(s, "add through a subscript of %r" % (env[dn],))
+                    if dn in self.ctx.captured:
+                        fail(s, "%s is mutated after it was stored elsewhere (aliasing)" % dn)
+                    kc, kt, kb = self.x.tx(e.func.value.slice, env)
+                    xc, xt, xb = self.x.tx(e.args[0], env)
+                    if (kt, xt) != ("int", "world"):
+                        fail(s, "add through a subscript with %r" % ((kt, xt),))
+                    old = self.ctx.fresh()
+                    binds_in(kb + xb + [(old, "zdict_get %s %s" % (v(dn), kc), "cbind")])
+                    let(v(dn), "(zdict_set %s %s (wset_add %s %s))" % (v(dn), kc, old, xc))
                     continue
                 if (isinstance(e, ast.Call) and isinstance(e.func, ast.Attribute) and e.func.attr == "append" and len(e.args) == 1 and not e.keywords
                         and isinstance(e.func.value, ast.Subscript) and isinstance(e.func.value.value, ast.Name) and e.func.value.value.id in env):
@@ -1541,6 +1587,18 @@ class B:
             fail(s, "assignment to a subscript of something other than a local dictionary")
         nm = t.value.id
         ty = env[nm]
+        if isinstance(ty, tuple) and ty[0] == "wdict":
+            if nm in self.ctx.captured:
+                fail(s, "%s is mutated after it was stored elsewhere (aliasing)" % nm)
+            k, tk, bk = self.x.tx(t.slice, env)
+            c, tv, b = self.x.tx(s.value, env)
+            if tk != "world":
+                fail(s, "ranking table key of type %r" % (tk,))
+            c, tv = coerce(c, tv, ty[1])
+            env[nm] = ("wdict", unify(ty[1], tv))
+            binds_in(bk + b)
+            let(v(nm), "(wdict_set %s %s %s)" % (v(nm), k, c))
+            return
         if not (isinstance(ty, tuple) and ty[0] == "dict"):
             fail(s, "subscript assignment on %r" % (ty,))
         if nm in self.ctx.captured:
@@ -1614,6 +1672,8 @@ def coq_type(t):
             return "(dict Z %s)" % coq_type(t[1])
         if t[0] == "wdict":
             return "(wdict %s)" % coq_type(t[1])
+        if t[0] == "fn":
+            return "(%s)" % " -> ".join([coq_type(x) for x in t[1]] + ["ctl %s unit unit" % coq_type(t[2])])
         if t[0] == "res":
             return "(pyres %s)" % coq_type(t[1])
         if t[0] == "tuple":
@@ -1647,6 +1707,35 @@ def translate_function(tree, fn, table, consts):
         actual = actual[1:]
     if declared != actual:
         raise Unsupported("%s: parameters are %r, the translator was told %r" % (fn.name, actual, declared))
+    if fn.narrow:
+        names = set(fn.narrow)
+
+        class Ren(ast.NodeTransformer):
+            def __init__(self, a, b):
+                self.a, self.b = a, b
+
+            def visit_Name(self, x):
+                if x.id == self.a:
+                    if not isinstance(x.ctx, ast.Load):
+                        raise Unsupported("%s: %s is re-bound under its `is not None` test" % (fn.name, self.a))
+                    return ast.copy_location(ast.Name(id=self.b, ctx=ast.Load()), x)
+                return x
+
+        class Narrow(ast.NodeTransformer):
+            def visit_If(self, x):
+                self.generic_visit(x)
+                t = x.test
+                if (isinstance(t, ast.Compare) and len(t.ops) == 1 and isinstance(t.ops[0], ast.IsNot) and isinstance(t.left, ast.Name)
+                        and t.left.id in names and isinstance(t.comparators[0], ast.Constant) and t.comparators[0].value is None):
+                    a = t.left.id
+                    b = a + "__int"
+                    body = [Ren(a, b).visit(st) for st in x.body]
+                    bind = ast.Assign(targets=[ast.Name(id=b, ctx=ast.Store())],
+                                      value=ast.Call(func=ast.Name(id="__unopt", ctx=ast.Load()), args=[ast.Name(id=a, ctx=ast.Load())], keywords=[]))
+                    x.body = [ast.copy_location(bind, x)] + body
+                return x
+        node = Narrow().visit(node)
+        ast.fix_missing_locations(node)
     if fn.es_mut:
         # self.epistemic_state["k"] for a written entry k becomes a variable es__k: a parameter whose final value is returned
         keys = {k for k, _ in fn.es_mut}
@@ -1764,6 +1853,7 @@ TRIPLE = ("tuple", ("int", ("list", "int"), ("list", "int")))
 RANKS = [("@ranks", "at_ranks", ("wdict", "optint"))]
 Z3_CONSTS = {"sat": ("true", "bool", []), "unsat": ("false", "bool", [])}
 
+WSET = ("set", "world")
 TARGETS = [
     dict(out="SrcCond", file="inference/conditional.py", requires=[], funcs=[
         Fn("make_A_then_B", "py_make_A_then_B", [("self", "cond")], cls="Conditional"),
@@ -1847,6 +1937,11 @@ TARGETS = [
     dict(out="SrcCrep", file="inference/preocf.py", requires=["SrcCond"], funcs=[
         Fn("c_vec2ocf", "py_RandomMinCRepPreOCF_c_vec2ocf", [("world", "world")], cls="RandomMinCRepPreOCF", ret="int",
            state=[("@conditionals", "at_conditionals", ("dict", "cond")), ("@_impacts", "at_impacts", ("list", "int"))]),
+    ]),
+    dict(out="SrcTpo", file="inference/preocf.py", requires=[], funcs=[
+        Fn("ranks2tpo", "py_ranks2tpo", [("ranks", ("wdict", "optint"))], locals_={"rank_groups": ("dict", WSET)}, narrow=["rank"]),
+        Fn("tpo2ranks", "py_tpo2ranks", [("tpo", ("list", WSET)), ("rank_function", ("fn", ("int",), "int"))], locals_={"ranks": ("wdict", "optint")}),
+        Fn("is_ocf", "py_PreOCF_is_ocf", [], cls="PreOCF", state=RANKS),
     ]),
     dict(out="SrcOcfCustom", file="inference/preocf.py", requires=[], funcs=[
         Fn("rank_world", "py_CustomPreOCF_rank_world", [("world", "world"), ("force_calculation", "bool")], cls="CustomPreOCF", ret="int",
